@@ -1684,6 +1684,28 @@ impl Sweep {
     }
 }
 
+/// A history: the items are analysed one after the other on ONE fresh OS thread (thread-local state
+/// starts empty and is carried from item to item); every result is compared with the reference.
+pub fn sequence_check(items: &[(String, String, Vec<usize>)], detectors: &[Detector], mode: Mode) -> (Vec<Violation>, u64) {
+    std::thread::scope(|s| {
+        s.spawn(|| {
+            let mut vs = Vec::new();
+            let mut calls = 0u64;
+            for (k, it) in items.iter().enumerate() {
+                let r = check_text(&it.1, &it.2, &it.0, detectors, mode);
+                calls += r.calls;
+                for mut v in r.violations {
+                    v.observed = format!("{} [item {} of the history {:?}]", v.observed, k + 1, items.iter().map(|x| x.0.clone()).collect::<Vec<_>>());
+                    vs.push(v);
+                }
+            }
+            (vs, calls)
+        })
+        .join()
+        .unwrap()
+    })
+}
+
 /// Accumulates (label, text, token offsets) items and sweeps them in batches (bounded memory).
 pub struct Batch<'d> {
     items: Vec<(String, String, Vec<usize>)>,
